@@ -343,6 +343,10 @@ class Engine:
         val = self.ev(node.value)
         if isinstance(val, NArr) and len(node.targets) == 1 and isinstance(node.targets[0], ast.Name):
             val = self.name_large(val, node.targets[0].id)
+        if isinstance(val, Opt) and not isinstance(val.none, bool) and not self.feasible(val.none):
+            val = val.val       # the path condition excludes None: narrow Optional[T] to T
+        elif isinstance(val, Opt) and val.none is False:
+            val = val.val
         for tgt in node.targets:
             self.assign(tgt, val)
 
